@@ -116,6 +116,16 @@ def where_of(ex):
 # ---------------------------------------------------------------------------
 def keyword_lookalike(kws, rng):
     steps_kw = [w.strip().lower() for t in ("given", "when", "then", "and", "but") for w in kws[t] if w.strip() != "*"]
+    raw_kw = [w.lower() for t in ("given", "when", "then", "and", "but") for w in kws[t] if w.strip() != "*"]
+    if rng.random() < 0.4:
+        # a step keyword followed by punctuation instead of the blank that belongs to it ("Then: ...", "And/or ...") is free text
+        cands = [w for t in ("given", "when", "then", "and", "but") for w in kws[t] if w.endswith(" ") and w.strip() != "*"]
+        for _ in range(10):
+            if not cands:
+                break
+            text = rng.choice(cands).strip() + rng.choice([": the basket is empty", "/or pay later", "? never.", ". done", "\tx", "- x", ", x"])
+            if not any(text.lower().startswith(k) for k in raw_kw) and text[0] not in "@#|*\"'":
+                return text
     for _ in range(10):
         alias = rng.choice(kws[rng.choice(["feature", "rule", "background", "scenario", "scenario_outline", "examples"])])
         text = alias + rng.choice(["s", ".", "2", "x", " x", "e", "n"])
